@@ -153,6 +153,12 @@ package pubsub
 //@   loop 1 invariant score-read-once: score == old(score(gs, p))
 //@   loop 1 invariant removed: ctl != nil ==> (forall i int :: 0 <= i && i <= rangeindex ==> !has(gs.mesh, ctlTopic(ctl.Prune[i].TopicID), p))
 //@   loop 1 invariant time: now >= old(now) && gs.params.PruneBackoff == old(gs.params.PruneBackoff)
+//@   loop 1 step backoff-recorded-for-every-joined-topic: iter(topic in gs.mesh) ==>
+//@        calls((*GossipSubRouter).doAddBackoff) + calls((*GossipSubRouter).addBackoff) == iter(calls((*GossipSubRouter).doAddBackoff) + calls((*GossipSubRouter).addBackoff)) + 1 &&
+//@        has(gs.backoff, topic, p) && gs.backoff[topic][p] >= iter(now) + ite(statedBackoff(prune) > 0, statedBackoff(prune) * 1000000000, gs.params.PruneBackoff)
+//@   loop 1 step unjoined-topic-ignored: !iter(topic in gs.mesh) ==>
+//@        calls((*GossipSubRouter).doAddBackoff) + calls((*GossipSubRouter).addBackoff) == iter(calls((*GossipSubRouter).doAddBackoff) + calls((*GossipSubRouter).addBackoff)) &&
+//@        calls((*GossipSubRouter).pxConnect) == iter(calls((*GossipSubRouter).pxConnect))
 //@   at call doAddBackoff#1 assert stated-period: $arg1 == p && $arg2 == topic && $arg3 == statedBackoff(prune) * 1000000000 && statedBackoff(prune) > 0
 //@   at call addBackoff#1 assert default-period: $arg1 == p && $arg2 == topic && !$arg3
 //@   at call pxConnect assert px-threshold: score >= gs.acceptPXThreshold
@@ -176,6 +182,13 @@ package pubsub
 //@ spec fn wasAdmissible(gs *GossipSubRouter, t string, p string, sc real, at int) bool =
 //@      old(t in gs.mesh) && !old(p in gs.direct) && !(old(has(gs.backoff, t, p)) && at < old(gs.backoff[t][p])) && sc >= 0.0 &&
 //@      (old(len(gs.mesh[t])) < old(gs.params.Dhi) || old(gs.outbound[p]))
+// consideredGraft: the GRAFT entry passed the peer filter, names a joined topic and the sender is
+// not already in that mesh (everything else is ignored without an answer); backoffActive: the
+// sender has a backoff entry for the topic that has not expired at the time the handler started.
+//@ spec fn consideredGraft(gs *GossipSubRouter, p string, topic string) bool = lastret(dyn:peerFilter) && iter(topic in gs.mesh) && !iter(has(gs.mesh, topic, p))
+//@ spec fn backoffActive(gs *GossipSubRouter, p string, topic string, now int) bool = iter(has(gs.backoff, topic, p)) && now < iter(gs.backoff[topic][p])
+//@ spec fn refusedForBackoff(gs *GossipSubRouter, p string, topic string, now int) bool =
+//@      consideredGraft(gs, p, topic) && !(p in gs.direct) && backoffActive(gs, p, topic, now)
 //@ func (*GossipSubRouter).handleGraft
 //@   property C07 C08 C09 C19 C12
 //@   safe
@@ -201,6 +214,28 @@ package pubsub
 //@   loop 1 step graft-traced-iff-admitted: calls((*pubsubTracer).Graft) - iter(calls((*pubsubTracer).Graft)) ==
 //@        ite((forall t string :: has(gs.mesh, t, p) == iter(has(gs.mesh, t, p))), 0, 1)
 //@   loop 1 step one-admission-per-entry: forall t1 string, t2 string :: has(gs.mesh, t1, p) && !iter(has(gs.mesh, t1, p)) && has(gs.mesh, t2, p) && !iter(has(gs.mesh, t2, p)) ==> t1 == t2
+//@   loop 1 step refused-under-backoff-penalised-and-extended: refusedForBackoff(gs, p, topic, now) ==>
+//@        calls((*peerScore).AddPenalty) - iter(calls((*peerScore).AddPenalty)) ==
+//@            ite(now < iter(gs.backoff[topic][p]) + gs.params.GraftFloodThreshold - gs.params.PruneBackoff, 2, 1) &&
+//@        has(gs.backoff, topic, p) && gs.backoff[topic][p] >= now + gs.params.PruneBackoff && gs.backoff[topic][p] >= iter(gs.backoff[topic][p]) &&
+//@        len(prune) == prev(len(prune)) + 1 && prune[len(prune) - 1] == topic && !doPX
+//@   loop 1 step negative-score-refused: consideredGraft(gs, p, topic) && !(p in gs.direct) && !backoffActive(gs, p, topic, now) && score < 0.0 ==>
+//@        len(prune) == prev(len(prune)) + 1 && prune[len(prune) - 1] == topic && !doPX &&
+//@        has(gs.backoff, topic, p) && gs.backoff[topic][p] >= now + gs.params.PruneBackoff
+//@   loop 1 step full-mesh-refused: consideredGraft(gs, p, topic) && !(p in gs.direct) && !backoffActive(gs, p, topic, now) && !(score < 0.0) &&
+//@        iter(len(gs.mesh[topic])) >= gs.params.Dhi && !gs.outbound[p] ==>
+//@        len(prune) == prev(len(prune)) + 1 && prune[len(prune) - 1] == topic && !has(gs.mesh, topic, p) &&
+//@        has(gs.backoff, topic, p) && gs.backoff[topic][p] >= now + gs.params.PruneBackoff
+//@   loop 1 step direct-peer-refused: consideredGraft(gs, p, topic) && p in gs.direct ==>
+//@        len(prune) == prev(len(prune)) + 1 && prune[len(prune) - 1] == topic && !doPX && !has(gs.mesh, topic, p)
+//@   loop 1 step admissible-graft-admitted: consideredGraft(gs, p, topic) && !(p in gs.direct) && !backoffActive(gs, p, topic, now) && !(score < 0.0) &&
+//@        !(iter(len(gs.mesh[topic])) >= gs.params.Dhi && !gs.outbound[p]) ==> has(gs.mesh, topic, p) && len(prune) == prev(len(prune))
+//@   loop 1 step ignored-graft-no-response: !consideredGraft(gs, p, topic) ==> len(prune) == prev(len(prune)) &&
+//@        (lastret(dyn:peerFilter) && !iter(topic in gs.mesh) ==> !doPX)
+//@   loop 1 step penalty-only-for-backoff: !refusedForBackoff(gs, p, topic, now) ==> calls((*peerScore).AddPenalty) == iter(calls((*peerScore).AddPenalty))
+//@   loop 1 step px-never-re-enabled: !prev(doPX) ==> !doPX
+//@   loop 1 step filter-asked-once: calls(dyn:peerFilter) == iter(calls(dyn:peerFilter)) + 1
+//@   at call makePrune assert every-refusal-answered: $arg2 == prune[rangeindex]
 //@   at call AddPenalty#1 assert backoff-active: $arg1 == p && $arg2 == 1 && has(gs.backoff, topic, p) && now < gs.backoff[topic][p]
 //@   at call AddPenalty#2 assert flood-window: $arg1 == p && $arg2 == 1 && now < gs.backoff[topic][p] + gs.params.GraftFloodThreshold - gs.params.PruneBackoff
 //@   at call addBackoff assert refused: $arg1 == p && $arg2 == topic && !$arg3
@@ -212,7 +247,7 @@ package pubsub
 //@   ensures no-new-mesh: forall t string :: (t in gs.mesh) == old(t in gs.mesh)
 //@   ensures admitted-only-if: forall t string :: has(gs.mesh, t, p) && !old(has(gs.mesh, t, p)) ==> wasAdmissible(gs, t, p, old(score(gs, p)), lastret(time.Now))
 //@   ensures backoff-grows: forall t string, q string :: old(has(gs.backoff, t, q)) ==> has(gs.backoff, t, q) && gs.backoff[t][q] >= old(gs.backoff[t][q])
-//@   ensures response: result == nil || len(result) == len(prune)
+//@   ensures response: len(result) == len(prune)
 //@   ensures request-untouched: ctl.Prune == old(ctl.Prune) && (forall i int :: 0 <= i && i < len(ctl.Prune) ==> ctl.Prune[i] == old(ctl.Prune[i]))
 //@   ensures sep: sepMesh(gs) && sepBackoff(gs)
 
@@ -463,6 +498,15 @@ package pubsub
 //@   loop 2 invariant serving: servingInv(gs, p, ihave) && wfGS(gs)
 //@   at call GetForPeer assert wanted: $arg2 == p && $arg1 == mid && !has(gs.unwanted, p, csum(mid))
 //@   at call Debug#2 assert over-limit: lastret((*MessageCache).GetForPeer, 1) > gs.params.GossipRetransmission
+//@   loop 2 step served-only-within-retransmission-limit: mid in ihave && !iter(mid in ihave) ==>
+//@        calls((*MessageCache).GetForPeer) == iter(calls((*MessageCache).GetForPeer)) + 1 && lastarg((*MessageCache).GetForPeer, 1) == mid && lastarg((*MessageCache).GetForPeer, 2) == p &&
+//@        lastret((*MessageCache).GetForPeer, 2) && lastret((*MessageCache).GetForPeer, 1) <= gs.params.GossipRetransmission && lastret(dyn:peerFilter)
+//@   loop 2 step cached-and-wanted-is-served: calls((*MessageCache).GetForPeer) > iter(calls((*MessageCache).GetForPeer)) && lastret((*MessageCache).GetForPeer, 2) &&
+//@        lastret(dyn:peerFilter) && lastret((*MessageCache).GetForPeer, 1) <= gs.params.GossipRetransmission ==> mid in ihave
+//@   loop 2 step one-id-per-entry: forall m string :: m != mid ==> (m in ihave) == iter(m in ihave)
+//@   loop 3 invariant answering: len(msgs) == $count && servingInv(gs, p, ihave)
+//@   ensures every-found-message-served: !(old(score(gs, p)) < old(gs.gossipThreshold)) ==> len(result) == len(ihave)
+//@   loop 2 step counted-at-most-once: calls((*MessageCache).GetForPeer) - iter(calls((*MessageCache).GetForPeer)) <= 1
 //@   ensures below-gossip-threshold: old(score(gs, p)) < old(gs.gossipThreshold) ==> result == nil &&
 //@        calls((*MessageCache).GetForPeer) == old(calls((*MessageCache).GetForPeer))
 //@   ensures unwanted-kept: forall q string, c checksum :: has(gs.unwanted, q, c) == old(has(gs.unwanted, q, c))
@@ -727,13 +771,11 @@ package pubsub
 //@   ensures still-decoded: forall i int :: 0 <= i && i < len(peers) ==> peers[i] != nil
 //@   loop 1 invariant considering: wfGS(gs) && gs.peers != nil && len(peers) <= gs.params.PrunePeers && (forall i int :: 0 <= i && i < len(peers) ==> peers[i] != nil) &&
 //@        (cap(toconnect) == 0 || fresh(arr(toconnect)))
-//@   loop 1 step record-valid-for-peer: forall i int :: len(toconnect) == iter(len(toconnect)) + 1 && i == iter(len(toconnect)) ==>
+//@   loop 1 step record-valid-for-peer: forall i int :: len(toconnect) == prev(len(toconnect)) + 1 && i == prev(len(toconnect)) ==>
 //@        !(toconnect[i].p in gs.peers) && toconnect[i].p == bytestr(peers[rangeindex].PeerID) &&
 //@        (toconnect[i].spr != nil ==> calls(record.ConsumeEnvelope) == iter(calls(record.ConsumeEnvelope)) + 1 && lastret(record.ConsumeEnvelope, 2) == nil &&
-//@            toconnect[i].spr == lastret(record.ConsumeEnvelope, 0))
-// (that the record's PeerID equals the advertised ID is checked by the code on the path to the
-// append - `if rec.PeerID != p { continue }` - but is not expressible here: pointer types cannot be
-// written in typeis/unbox)
+//@            toconnect[i].spr == lastret(record.ConsumeEnvelope, 0) && typeis(lastret(record.ConsumeEnvelope, 1), ptr(peer.PeerRecord)) &&
+//@            unbox(lastret(record.ConsumeEnvelope, 1), ptr(peer.PeerRecord)).PeerID == toconnect[i].p)
 //@   loop 2 invariant sending: wfGS(gs)
 
 // GossipSubParams.validate: what an accepted configuration guarantees to the handlers.
